@@ -15,6 +15,28 @@ type query struct {
 	run  func(q *quadtree.Quadtree, yield func()) []orb.Pointer
 }
 
+// windowed queries (by name) are called through their entry here instead of run: the caller's result buffer is handed
+// in. The driver gives every goroutine its own window of one arena, with the capacity running on to the end of the
+// arena as a plain two-index slice has it - no element is shared, and every result fits its window.
+var windowed = map[string]func(q *quadtree.Quadtree, yield func(), b []orb.Pointer) []orb.Pointer{}
+
+func windowedQuery(name string, f func(q *quadtree.Quadtree, yield func(), b []orb.Pointer) []orb.Pointer) query {
+	windowed[name] = f
+	return query{name, func(q *quadtree.Quadtree, y func()) []orb.Pointer { return f(q, y, make([]orb.Pointer, 0, arenaWindow)) }}
+}
+
+// window is the result buffer of goroutine t: arenaWindow slots of the arena, empty, capacity to the arena's end.
+const arenaWindow = 8
+
+func window(arena []orb.Pointer, t int) []orb.Pointer { return arena[t*arenaWindow : t*arenaWindow] }
+
+func (qu query) call(q *quadtree.Quadtree, yield func(), arena []orb.Pointer, t int) []orb.Pointer {
+	if f := windowed[qu.name]; f != nil {
+		return f(q, yield, window(arena, t))
+	}
+	return qu.run(q, yield)
+}
+
 // sharedLimit is read by every thread's queries; nobody may write to it.
 var sharedLimit = []float64{1.5}
 
@@ -126,6 +148,16 @@ func menu() []query {
 	// while the heap is full)
 	m = append(m,
 		query{"KNearest(nil,[2 2],1,100)", func(q *quadtree.Quadtree, y func()) []orb.Pointer { return q.KNearest(nil, qpoints[2], 1, 100) }},
+	)
+	// results written into the goroutine's window of the shared arena
+	m = append(m,
+		windowedQuery("KNearest(window,[2 2],2)", func(q *quadtree.Quadtree, y func(), b []orb.Pointer) []orb.Pointer { return q.KNearest(b, qpoints[2], 2) }),
+		windowedQuery("InBound(window,whole tree)", func(q *quadtree.Quadtree, y func(), b []orb.Pointer) []orb.Pointer {
+			return q.InBound(b, orb.Bound{Min: orb.Point{0, 0}, Max: orb.Point{4, 4}})
+		}),
+		windowedQuery("InBoundMatching(window,[1,2]^2,even)", func(q *quadtree.Quadtree, y func(), b []orb.Pointer) []orb.Pointer {
+			return q.InBoundMatching(b, orb.Bound{Min: orb.Point{1, 1}, Max: orb.Point{2, 2}}, even(y))
+		}),
 	)
 	for _, b := range []orb.Bound{
 		{Min: orb.Point{0, 0}, Max: orb.Point{4, 4}},
